@@ -321,6 +321,8 @@ def taint_programs(r):
         ("@f|" + lit(p) + "E;@f;", []), (lit(p) + "1ßE", []),
     ]
     text, inputs = r.choice([f for f in forms if f[0]])
+    # what lies below on the stack is a dimension of its own: 0-3 harmless entries first
+    text = r.choice(["", "", "1 ", "1 2 ", "`a` ⟨1⟩ 3 ", "4 5 6 7 "]) + text
     flags = r.choice(["", "", "D", "j", "W", "o"])
     return text, inputs, flags
 
